@@ -33,7 +33,9 @@ def describe(tier):
                 "half window, window) x truncated value (all values for l<=2; +-3 around 0, half window, window-1 and "
                 "(expected+-half window) mod window for l=3,4) x each of 7 (packet type, direction) slots, the other "
                 "slots holding different values; layer B: BFS over packet histories with state = the six largest-"
-                "packet-number slots. non-trivial: the reference decode differs from the plain truncated value "
+                "packet-number slots; layer N: for 4 suites x 9 base values up to 2^62 x both directions, real 1-RTT packets protected by "
+                "the peer model at packet numbers base+1, base+2 are fed to the real session and must be opened (the reconstructed "
+                "number is the AEAD nonce). non-trivial: the reference decode differs from the plain truncated value "
                 "(window arithmetic mattered); distinct = distinct (l, largest, truncated)",
         "exhaustive": True,
         "bounds": {"lengths": [1, 2, 3, 4], "k_values": {l: [str(k) for k in _ks(l, tier)] for l in (1, 2, 3, 4)},
@@ -56,6 +58,8 @@ def cases(tier, seed):
                     continue
                 yield {"layer": "A", "l": l, "k": str(k), "slot": slot}
     yield {"layer": "B", "tier": tier}
+    for suite in (0x1301, 0x1302, 0x1303, 0x1304):
+        yield {"layer": "N", "suite": suite, "seed": seed}
 
 
 _sess = None
@@ -112,7 +116,76 @@ def get_slot(sess, slot):
 def run_case(case):
     if case["layer"] == "A":
         return run_a(case)
+    if case["layer"] == "N":
+        return run_n(case)
     return run_b(case)
+
+
+N_BASES = [255, 65535, (1 << 24) + 3, (1 << 32) - 2, (1 << 32) + 5, (1 << 40) + 7, (1 << 53) + 1, (1 << 61) + 12345, (1 << 62) - 300]
+
+
+def run_n(case):
+    """'... and uses as AEAD nonce': real 1-RTT packets protected by the peer model at large packet numbers are fed to the
+    real session (whose largest-packet-number slot is set just below); the STREAM data must come out."""
+    from .. import scen
+    from ..model import cap as capm
+    m = harness.load()
+    from tlexport.packet import Packet
+    from tlexport.quic.quic_session import PACKET_TYPE_MAP
+    from tlexport.quic.quic_packet import QuicPacketType
+    from tlexport.quic.quic_frame import StreamFrame
+    seed, suite = case["seed"], case["suite"]
+    conn = scen.quic_conn({"suite": suite, "script": []}, seed, key=("c16n",))
+    ends = capm.Ends(2)
+    pk = capm.stamp(scen.quic_packets(conn), {0: ends})
+    res, (_s, qs) = scen.run(pk, conn.keylog, want_objects=True)
+    fails, nontriv = [], []
+    n = 0
+    if not res.ok or len(qs) != 1:
+        return {"n": 1, "fails": [{"kind": "handshake_not_processed", "sig": {"layer": "N", "suite": f"{suite:#06x}"}, "detail": res.status}]}
+    q = qs[0]
+    key = PACKET_TYPE_MAP[QuicPacketType.RTT_1]
+    t = 5000.0
+    sample = None
+    for base in N_BASES:
+        for d in ("c", "s"):
+            for step in (1, 2):
+                pn = base + step
+                slot = q.packet_number_server if d == "s" else q.packet_number_client
+                slot[key] = pn - 1 if step == 1 else slot[key]
+                fr, data = conn.stream_frames([(0 if d == "c" else 3, 24)])
+                raw = conn.short_pkt(d, fr, pn=pn, pn_len=4)
+                src, dst = ends.src_dst(d)
+                t += 1
+                packet = Packet(net.build_frame(src, dst, "udp", raw), t)
+                before = len(q.output_buffer)
+                try:
+                    m.handle_quic_packet(packet, m.keylog, m.quic_sessions, {}, True)
+                except Exception as e:
+                    fails.append({"kind": "raised", "sig": {"layer": "N", "suite": f"{suite:#06x}", "pn": str(pn)}, "detail": repr(e)})
+                    continue
+                n += 1
+                got = [f for f in q.output_buffer[before:] if isinstance(f, StreamFrame)]
+                if len(got) != 1 or bytes(got[0].stream_data) != data:
+                    fails.append({"kind": "packet_not_opened_with_reconstructed_number",
+                                  "sig": {"layer": "N", "suite": f"{suite:#06x}", "pn_at_least_2^32": pn >= 1 << 32, "dir": d},
+                                  "sub": {"pn": str(pn)},
+                                  "detail": f"1-RTT packet number {pn} (4-byte encoding, largest {pn - 1}): stream data not delivered"})
+                elif slot[key] != pn:
+                    fails.append({"kind": "wrong_slot_update", "sig": {"layer": "N", "suite": f"{suite:#06x}", "dir": d},
+                                  "detail": f"largest is {slot[key]} after packet {pn}"})
+                else:
+                    nontriv.append(f"N/{suite}/{pn}/{d}")
+                    if sample is None and pn > 1 << 32:
+                        sample = {"layer": "N", "suite": f"{suite:#06x}", "packet_number": pn, "direction": d, "stream_bytes": len(data)}
+    harness.reset_state()
+    uniq = {}
+    for f in fails:
+        uniq.setdefault(str((f["kind"], f["sig"])), f)
+    r = {"n": n, "fails": list(uniq.values()), "nontrivial": nontriv, "outcomes": [f"N{suite}"], "count": {"layer_n_packets": n}}
+    if sample:
+        r["sample"] = sample
+    return r
 
 
 def run_a(case):
